@@ -437,6 +437,283 @@ func init() {
 			}
 			fmt.Fprintf(b, "(* the look-ahead condition %s holds iff at least this many bytes remain from position i (included) *)\nDefinition gen_pathEscape_look_need : N := %d.\n\n", types.ExprString(cond), need)
 		}
+		// ---- the render fast path of the emitter (case *ast.Show): the condition of
+		// `else if render, ok := expr.(*ast.Render); ok ...`, for every format of the
+		// rendered file and every context
+		{
+			fd := findMethod(cc, "emitter", "emitNodes")
+			if fd == nil {
+				panic("method emitter.emitNodes not found")
+			}
+			var cond ast.Expr
+			ast.Inspect(fd.Body, func(n ast.Node) bool {
+				is, ok := n.(*ast.IfStmt)
+				if !ok || is.Init == nil || cond != nil {
+					return true
+				}
+				if as, ok := is.Init.(*ast.AssignStmt); ok && len(as.Rhs) == 1 {
+					if ta, ok := as.Rhs[0].(*ast.TypeAssertExpr); ok && types.ExprString(ta.Type) == "*ast.Render" {
+						cond = is.Cond
+					}
+				}
+				return true
+			})
+			if cond == nil {
+				panic("emitNodes: `else if render, ok := expr.(*ast.Render)` not found")
+			}
+			fmt.Fprintf(b, "(* emitter_statements.go, case *ast.Show: {{ render f }} takes the fast path (direct macro call) for (format of f, context) *)\nDefinition gen_render_fastpath : list (N * N * bool) := [")
+			first := true
+			for from := int64(0); from < 6; from++ {
+				for ctx := int64(0); ctx < 14; ctx++ {
+					e := newEnv(cc)
+					e.byname["ok"] = constant.MakeBool(true)
+					e.byname["ctx"] = constant.MakeInt64(ctx)
+					e.byname["render.Tree.Format"] = constant.MakeInt64(from)
+					v := e.eval(cond)
+					if v == nil {
+						panic("render fast path condition not evaluable: " + types.ExprString(cond))
+					}
+					if !first {
+						b.WriteString(";")
+					}
+					first = false
+					fmt.Fprintf(b, " (%d, %d, %s)", from, ctx, coqBool(constant.BoolVal(v)))
+				}
+			}
+			b.WriteString("].\n")
+			// canOptimizeShowMacro: `if ctx > ast.ContextMarkdown { return false }` ... `return from == to || ...` with to = ast.Format(ctx)
+			cf := findMethod(cc, "emitter", "canOptimizeShowMacro")
+			if cf == nil {
+				panic("method emitter.canOptimizeShowMacro not found")
+			}
+			var firstIf *ast.IfStmt
+			var lastRet *ast.ReturnStmt
+			var toInit ast.Expr
+			for _, st := range cf.Body.List {
+				switch st := st.(type) {
+				case *ast.IfStmt:
+					if firstIf == nil {
+						firstIf = st
+					}
+				case *ast.ReturnStmt:
+					lastRet = st
+				case *ast.AssignStmt:
+					if len(st.Lhs) == 1 && types.ExprString(st.Lhs[0]) == "to" {
+						toInit = st.Rhs[0]
+					}
+				}
+			}
+			if firstIf == nil || lastRet == nil || len(lastRet.Results) != 1 || toInit == nil {
+				panic("canOptimizeShowMacro: context guard, `to := ...` or final return not found")
+			}
+			fmt.Fprintf(b, "(* canOptimizeShowMacro for a macro declaration: (result format of the macro, context) *)\nDefinition gen_macro_fastpath : list (N * N * bool) := [")
+			first = true
+			for from := int64(0); from < 6; from++ {
+				for ctx := int64(0); ctx < 14; ctx++ {
+					e := newEnv(cc)
+					e.byname["ctx"] = constant.MakeInt64(ctx)
+					res := false
+					k := e.stmt(firstIf)
+					switch k {
+					case stopReturn:
+						res = constant.BoolVal(e.ret[0])
+					case stopNone:
+						to := e.eval(toInit)
+						if to == nil {
+							panic("canOptimizeShowMacro: to not evaluable")
+						}
+						e.byname["to"] = to
+						e.byname["from"] = constant.MakeInt64(from)
+						v := e.eval(lastRet.Results[0])
+						if v == nil {
+							panic("canOptimizeShowMacro: result not evaluable")
+						}
+						res = constant.BoolVal(v)
+					default:
+						panic("canOptimizeShowMacro: context guard not evaluable: " + e.why)
+					}
+					if !first {
+						b.WriteString(";")
+					}
+					first = false
+					fmt.Fprintf(b, " (%d, %d, %s)", from, ctx, coqBool(res))
+				}
+			}
+			b.WriteString("].\n\n")
+		}
+
+		// ---- VM.run: the renderer switch of OpCallMacro and of the macro case of
+		// OpCallIndirect, and what OpReturn panics with when the converter fails
+		{
+			run := findMethod(rt, "VM", "run")
+			clause := func(op string) *ast.CaseClause {
+				var cl *ast.CaseClause
+				ast.Inspect(run.Body, func(n ast.Node) bool {
+					c, ok := n.(*ast.CaseClause)
+					if ok && cl == nil && len(c.List) >= 1 && types.ExprString(c.List[0]) == op {
+						cl = c
+						return false
+					}
+					return true
+				})
+				if cl == nil {
+					panic("VM.run: case " + op + " not found")
+				}
+				return cl
+			}
+			// the if statement that starts with `b == ReturnString`
+			findSwitch := func(cl *ast.CaseClause) *ast.IfStmt {
+				var is *ast.IfStmt
+				ast.Inspect(cl, func(n ast.Node) bool {
+					if i, ok := n.(*ast.IfStmt); ok && is == nil && strings.Contains(types.ExprString(i.Cond), "ReturnString") {
+						is = i
+						return false
+					}
+					return true
+				})
+				if is == nil {
+					panic("renderer switch (b == ReturnString ...) not found")
+				}
+				return is
+			}
+			// walk the evaluated if-chain and classify the statement reached
+			var classify func(e *env, st ast.Stmt) int
+			classify = func(e *env, st ast.Stmt) int {
+				switch st := st.(type) {
+				case *ast.BlockStmt:
+					for _, x := range st.List {
+						if k := classify(e, x); k >= 0 {
+							return k
+						}
+					}
+					return -1
+				case *ast.IfStmt:
+					c := e.eval(st.Cond)
+					if c == nil {
+						panic("renderer switch: condition not evaluable: " + types.ExprString(st.Cond))
+					}
+					if constant.BoolVal(c) {
+						return classify(e, st.Body)
+					}
+					if st.Else != nil {
+						return classify(e, st.Else)
+					}
+					return -1
+				case *ast.AssignStmt:
+					if len(st.Lhs) == 1 && types.ExprString(st.Lhs[0]) == "vm.renderer" {
+						r := types.ExprString(st.Rhs[0])
+						switch {
+						case strings.Contains(r, "strings.Builder"):
+							return 1
+						case strings.Contains(r, "bytes.Buffer"):
+							return 2
+						case strings.Contains(r, "vm.renderer.out"):
+							return 3
+						}
+						panic("renderer switch: unknown renderer " + r)
+					}
+					return -1
+				case *ast.ExprStmt:
+					return -1
+				}
+				return -1
+			}
+			kinds := func(is *ast.IfStmt) string {
+				var sb strings.Builder
+				first := true
+				for bb := int64(-1); bb < 16; bb++ {
+					for f := int64(0); f < 6; f++ {
+						e := newEnv(rt)
+						e.byname["b"] = constant.MakeInt64(bb)
+						e.byname["fn.Format"] = constant.MakeInt64(f)
+						e.byname["vm.env.conv == nil"] = constant.MakeBool(false)
+						k := classify(e, is)
+						if k < 0 {
+							k = 0
+						}
+						if !first {
+							sb.WriteString(";")
+						}
+						first = false
+						fmt.Fprintf(&sb, " ((%d)%%Z, %d, %d)", bb, f, k)
+					}
+				}
+				return sb.String()
+			}
+			k1 := kinds(findSwitch(clause("OpCallMacro")))
+			k2 := kinds(findSwitch(clause("OpCallIndirect")))
+			fmt.Fprintf(b, "(* run.go OpCallMacro: renderer of the callee for (B operand, Format of the callee): 0 = the caller's renderer, 1 = new renderer on a strings.Builder, 2 = new renderer on a bytes.Buffer (converted at return), 3 = new renderer on the caller's writer *)\nDefinition gen_callmacro_switch : list (Z * N * N) := [%s].\n", k1)
+			fmt.Fprintf(b, "(* the macro case of OpCallIndirect makes the same choice *)\nDefinition gen_callindirect_switch_same : bool := %s.\n", coqBool(k1 == k2))
+			// without a converter the Markdown case panics with a fatalError
+			{
+				is := findSwitch(clause("OpCallMacro"))
+				e := newEnv(rt)
+				e.byname["b"] = constant.MakeInt64(constInt(ap, "FormatHTML"))
+				e.byname["fn.Format"] = constant.MakeInt64(constInt(ap, "FormatMarkdown"))
+				e.byname["vm.env.conv == nil"] = constant.MakeBool(true)
+				fatal := false
+				var walk func(st ast.Stmt) bool
+				walk = func(st ast.Stmt) bool {
+					switch st := st.(type) {
+					case *ast.BlockStmt:
+						for _, x := range st.List {
+							if walk(x) {
+								return true
+							}
+						}
+					case *ast.IfStmt:
+						c := e.eval(st.Cond)
+						if c == nil {
+							panic("renderer switch: condition not evaluable")
+						}
+						if constant.BoolVal(c) {
+							return walk(st.Body)
+						} else if st.Else != nil {
+							return walk(st.Else)
+						}
+					case *ast.ExprStmt:
+						if ce, ok := st.X.(*ast.CallExpr); ok && types.ExprString(ce.Fun) == "panic" {
+							fatal = strings.Contains(types.ExprString(ce.Args[0]), "fatalError")
+							return true
+						}
+					case *ast.AssignStmt:
+						return len(st.Lhs) == 1 && types.ExprString(st.Lhs[0]) == "vm.renderer"
+					}
+					return false
+				}
+				walk(is)
+				fmt.Fprintf(b, "(* OpCallMacro, Markdown macro in HTML without a converter: panics with a fatalError *)\nDefinition gen_noconv_is_fatal : bool := %s.\n", coqBool(fatal))
+			}
+			// OpReturn: the panic after `err := vm.env.conv(...)`
+			{
+				cl := clause("OpReturn")
+				kind := ""
+				ast.Inspect(cl, func(n ast.Node) bool {
+					is, ok := n.(*ast.IfStmt)
+					if !ok || types.ExprString(is.Cond) != "err != nil" {
+						return true
+					}
+					for _, st := range is.Body.List {
+						if es, ok := st.(*ast.ExprStmt); ok {
+							if ce, ok := es.X.(*ast.CallExpr); ok && types.ExprString(ce.Fun) == "panic" && len(ce.Args) == 1 {
+								t := rt.TypesInfo.TypeOf(ce.Args[0])
+								kind = t.String()
+							}
+						}
+					}
+					return true
+				})
+				if kind == "" {
+					panic("OpReturn: panic after the converter error not found")
+				}
+				fatal := strings.Contains(kind, "fatalError")
+				if !fatal && !strings.Contains(kind, "outError") {
+					panic("OpReturn: the converter error is raised as " + kind)
+				}
+				fmt.Fprintf(b, "(* OpReturn: the error of the Markdown converter is raised as %s *)\nDefinition gen_conv_error_is_fatal : bool := %s.\n\n", kind, coqBool(fatal))
+			}
+		}
+
 		fmt.Fprintf(b, "(* escapers.go queryEscape: bytes written for byte c when it is not copied *)\nDefinition gen_queryEscape : list (N * list N) := [")
 		first := true
 		for c := int64(0); c < 256; c++ {
